@@ -1,0 +1,44 @@
+//go:build verif
+
+package kademlia
+
+import "fmt"
+
+// VerifCheck walks the cache under its own lock and checks its structural invariants.
+func (kc *Cache[V]) VerifCheck() error {
+	kc.mu.RLock()
+	defer kc.mu.RUnlock()
+	var total int
+	for i, b := range kc.buckets {
+		total += len(b.entries)
+		for k, e := range b.entries {
+			if k != string(e.Key) {
+				return fmt.Errorf("bucket %d: map key %q != entry key %q", i, k, e.Key)
+			}
+			if bi := kc.bucketIndex(e.Key); bi != i {
+				return fmt.Errorf("bucket %d: entry %q belongs in bucket %d", i, e.Key, bi)
+			}
+			if !e.ExpiresAt.IsZero() && !b.minExpiresAt.IsZero() && b.minExpiresAt.After(e.ExpiresAt) {
+				return fmt.Errorf("bucket %d: minExpiresAt %v is later than entry expiry %v", i, b.minExpiresAt, e.ExpiresAt)
+			}
+		}
+	}
+	if total != kc.count {
+		return fmt.Errorf("count=%d but buckets hold %d entries", kc.count, total)
+	}
+	if kc.count > kc.max {
+		return fmt.Errorf("count=%d exceeds max=%d", kc.count, kc.max)
+	}
+	return nil
+}
+
+// VerifBucketLens returns the number of entries in each bucket.
+func (kc *Cache[V]) VerifBucketLens() []int {
+	kc.mu.RLock()
+	defer kc.mu.RUnlock()
+	ret := make([]int, len(kc.buckets))
+	for i, b := range kc.buckets {
+		ret[i] = len(b.entries)
+	}
+	return ret
+}
